@@ -17,14 +17,14 @@ Theorem nothing_undescribed n s0 E ops m w :
   build n = Ok s0 -> well_configured n ->
   let s := run E s0 ops in
   described s m w = None ->
-  refused (do_read s m w) /\
+  (forall tok, exists r, do_read s m w tok = (s, r, []) /\ refused r) /\
   (forall j, exists r, do_change E s m w j = (s, r, []) /\ refused r) /\
   (forall arg, refused (do_do E s m w arg)) /\
   (exists r, do_activate s (Some (m, Some w)) = (s, r, []) /\ refused r) /\
   (assoc_str m (describe s) = None -> do_activate s (Some (m, None)) = (s, RpErr RNoMod, [])).
 Proof.
   intros H W s D. assert (HC : consistent s) by (eapply reachable_consistent; eauto).
-  split; [apply undescribed_read; auto|]. split; [intros j; apply undescribed_change; auto|].
+  split; [intros tok; apply undescribed_read; auto|]. split; [intros j; apply undescribed_change; auto|].
   split; [intros arg; apply undescribed_do; auto|]. split; [apply undescribed_activate; auto|].
   apply undescribed_module_activate; auto.
 Qed.
@@ -60,17 +60,38 @@ Proof.
   - intros X Y j. eapply flags_allow; eauto.
 Qed.
 
-Theorem read_described n s0 E ops m w g v pd :
+Theorem read_described n s0 E ops m w g v pd tok :
   build n = Ok s0 -> well_configured n ->
   let s := run E s0 ops in
   described s m w = Some (DP g v pd) ->
   (pd_constant pd = None ->
-     exists value, do_read s m w = reply_of (dt_export (pd_dt pd) value >>= fun x => Ok (with_qualifiers x))) /\
-  (forall c, pd_constant pd = Some c -> do_read s m w = RpData (with_qualifiers c)).
+     exists p, param_at s m w = Some p /\ p_dt p = pd_dt pd /\
+       match p_hw p with
+       | None => do_read s m w tok = (s, value_reply (pd_dt pd) (p_value p), [])
+       | Some hw =>
+           match dt_call (pd_dt pd) hw with
+           | Ok nv => exists s' us, do_read s m w tok = (s', value_reply (pd_dt pd) nv, us) /\
+                                    Forall (fun u => u_body u = value_body (pd_dt pd) nv) us
+           | Err e => exists s' us, do_read s m w tok = (s', RpErr (RExc e), us) /\ Forall (fun u => u_body u = UE) us
+           end
+       end) /\
+  (forall c, pd_constant pd = Some c -> do_read s m w tok = (s, RpData (with_qualifiers c), [])).
 Proof.
   intros H W s D. assert (HC : consistent s) by (eapply reachable_consistent; eauto). split.
   - intros X. eapply read_nonconstant; eauto.
   - intros c X. eapply read_constant; eauto.
+Qed.
+
+(* interface class, features and implementation in the report are those of the implementing class, whatever the
+   configuration says about these module properties *)
+Theorem auto_props_described n s :
+  build n = Ok s ->
+  Forall2 (fun mc e => md_impl (snd e) = mc_impl mc /\ md_ifaces (snd e) = interface_classes (mc_mro mc) /\
+                       md_features (snd e) = features_of (mc_mro mc))
+          (filter mc_export n) (describe s).
+Proof.
+  intros H. pose proof (lists_exactly _ _ H) as L.
+  induction L as [|mc e l l' (_ & _ & _ & H1 & H2 & H3) _ IH]; constructor; auto.
 Qed.
 
 (* a described constant always comes with readonly = true *)
